@@ -461,9 +461,19 @@ def _match_form(case, f, opmap, raw, mode, cur):
             raise Mismatch("EVEX.V' set without a vvvv/VSIB operand")
     # segment override
     want_seg = mem_case["seg"] if mem_case else 0
+    # static branch hints: EncodingOptions::kPredictedJumps makes InstOptions::kTaken / kNotTaken of a conditional jump
+    # a 3E / 2E prefix (the bytes of the DS / CS overrides); without the encoding option, and on every other
+    # instruction, the two options emit nothing
+    hint = 0
+    if opts & (G.OPT_TAKEN | G.OPT_NOTTAKEN) and case.get("eopts", 0) & G.EO_PREDICTED_JUMPS and rel_ops and \
+            ((not p_esc and 0x70 <= p_op <= 0x7F) or (p_esc == [0x0F] and 0x80 <= p_op <= 0x8F)):
+        hint = 4 if opts & G.OPT_TAKEN else 2
     if want_seg:
         if seg_seen != [want_seg]:
             raise Mismatch("segment override %s expected, prefixes %s" % (want_seg, seg_seen))
+    elif hint:
+        if seg_seen != [hint]:
+            raise Mismatch("branch hint prefix %s expected, prefixes %s" % ("3E" if hint == 4 else "2E", seg_seen))
     elif seg_seen:
         raise Mismatch("segment prefix emitted but not requested")
     # address-size prefix
@@ -710,6 +720,16 @@ def _check_mem(cur, m, mod, rm, mode, addr_override, X, B, V2, evex, scale, o):
         raise Mismatch("displacement %d (scale %d), case says %d" % (disp, scale if dsz == 1 else 1, want))
     elif areg == "gp64" and disp != want and not (-0x80000000 <= want < 0x80000000):
         raise Mismatch("displacement %d does not sign-extend to %d" % (disp, want))
+
+
+def optsize_alternative(case):
+    """EncodingOptions::kOptimizeForSize is documented to turn `mov r64, imm` and `and r64, imm` with an immediate that
+    fits 32 unsigned bits into the r32 instruction (implicit zero extension): the equivalent case, or None."""
+    ops = case["ops"]
+    if case.get("eopts", 0) & G.EO_OPTSIZE and case["name"] in ("mov", "and") and len(ops) == 2 and ops[0][0] == "R" and \
+            ops[0][1] == "gp64" and ops[1][0] == "I" and 0 <= ops[1][1] <= 0xFFFFFFFF:
+        return dict(case, ops=[("R", "gp32", ops[0][2]), ops[1]])
+    return None
 
 
 def check(case, forms_by_name, raw, mode):
